@@ -1,21 +1,56 @@
 """Writes the (static, committed) C10 tie files.  They are compiled on every run against the freshly
-traced Run.GenC10; argument lists follow the recipe tracer/recipes/c10.py."""
-T=['t_%d_%d'%(i,j) for i in range(3) for j in range(3)]
-R=['r_0_%d_%d'%(i,j) for i in range(2) for j in range(3)]
-P=['p_0_%d'%j for j in range(3)]
-ta=' '.join(T); ra=' '.join(R); pa=' '.join(P)
-comp=['vx','vy','vz']
-PRE='''(* C10 tie, part %s: the definitions traced from /repo on this run equal the reference model
-   (coq/theories/C10/Model.v) for ALL real inputs, under the property's own guards only (non-zero
-   triangle area; ray not parallel to the plane).  Compiled on every run against Run.GenC10. *)
+traced Run.GenC10; argument lists follow tracer/recipes/c10.py.  Every lemma compares a traced definition
+with the reference model semantically (field / ring under the property's guards), never syntactically, so
+behaviour-preserving rewrites of the source still prove."""
+T = ['t_%d_%d' % (i, j) for i in range(3) for j in range(3)]
+R = ['r_0_%d_%d' % (i, j) for i in range(2) for j in range(3)]
+P = ['p_0_%d' % j for j in range(3)]
+T2 = ['t_%d_%d_%d' % (a, i, j) for a in range(2) for i in range(3) for j in range(3)]
+R2 = ['r_%d_%d_%d' % (a, i, j) for a in range(2) for i in range(2) for j in range(3)]
+ta, ra, pa = ' '.join(T), ' '.join(R), ' '.join(P)
+comp = ['vx', 'vy', 'vz']
+
+TACTICS = '''
+Ltac v3' := repeat progress (unfold vdot, vcross, vadd, vsub, vscale, vx, vy, vz in *; cbn [fst snd] in *).
+Ltac open_model := repeat progress (unfold tri_normal, tri_raw_normal, centroid, plane_dist, hit_point, bary_u, bary_v in *); v3'.
+(* unfold the model down to coordinates but keep the norm |raw| of the triangle at hand as ONE atom N; every sqrt in
+   the traced term must be that same norm (checked by ring on its argument) *)
+Ltac open_with Hn :=
+  open_model;
+  match type of Hn with 0 < ?n =>
+    let N := fresh "N" in
+    set (N := n) in *;
+    repeat match goal with |- context [sqrt ?a] =>
+      replace (sqrt a) with N by (subst N; unfold vnorm, vnorm2; f_equal; v3'; ring) end;
+    clearbody N
+  end.
+Ltac fin := field; repeat split; first [assumption | lra].
+(* boolean hit flag: compare as propositions; every comparison atom of the traced flag is identified with the
+   model's barycentric coordinate it equals (field decides which), whatever the order of the conjuncts *)
+Ltac not_bary X := lazymatch X with bary_u _ _ _ _ => fail | bary_v _ _ _ _ => fail | _ => idtac end.
+Ltac flag_tie t0 t1 t2 pt eqtac :=
+  apply eq_true_iff_eq; unfold inside_flag; rewrite !andb_true_iff, !Rleb_true, !Rltb_true;
+  repeat match goal with
+  | |- context [Rle 0 ?X] => not_bary X;
+      first [ replace X with (bary_u t0 t1 t2 pt) by eqtac | replace X with (bary_v t0 t1 t2 pt) by eqtac ]
+  end;
+  split; intros; repeat split; lra.
+'''
+
+
+def header(part):
+    return ('''(* C10 tie, part %s: the definitions traced from /repo on this run equal the reference model
+   (coq/theories/C10/Model.v) for ALL real inputs, under the property's own guards only (non-zero triangle
+   area; ray not parallel to the plane).  Compiled on every run against Run.GenC10. *)
 From Coq Require Import Reals Lra Bool.
 From OdakV Require Import Base.RealAux Base.Vec3 C10.Model C10.Lemmas.
 From Run Require Import GenC10.
 Open Scope R_scope.
+''' % part) + TACTICS
 
-Ltac v3' := repeat progress (unfold vdot, vcross, vadd, vsub, vscale, vx, vy, vz in *; cbn [fst snd] in *).
-Ltac open_model := repeat progress (unfold tri_normal, tri_raw_normal, centroid, plane_dist, hit_point, bary_u, bary_v in *); v3'.
 
+def single_section():
+    return ('''
 Section Single.
 Variables ''' + ta + ''' : R.
 Variables ''' + ra + ''' : R.
@@ -33,74 +68,203 @@ Lemma norm_pos : 0 < vnorm raw.
 Proof. apply vnorm_pos, vnorm2_pos, nondeg. Qed.
 Lemma gram_pos : 0 < vnorm2 raw.
 Proof. apply vnorm2_pos, nondeg. Qed.
-(* unfold the model down to coordinates but keep |raw| as one atom N; every sqrt in the traced term
-   must be that same norm (checked by ring on its argument) *)
-Ltac open :=
-  pose proof norm_pos as Hn; unfold raw, t0, t1, t2, o, d, p in *; open_model;
-  match type of Hn with 0 < ?n =>
-    let N := fresh "N" in
-    set (N := n) in *;
-    repeat match goal with |- context [sqrt ?a] =>
-      replace (sqrt a) with N by (subst N; unfold vnorm, vnorm2; f_equal; v3'; ring) end;
-    clearbody N
-  end.
-Ltac fin := field; repeat split; first [assumption | lra].
-'''
-A=[PRE % 'A (centres and normals)']
+Lemma gram_open : 0 < vdot (vsub t2 t0) (vsub t2 t0) * vdot (vsub t1 t0) (vsub t1 t0) - vdot (vsub t2 t0) (vsub t1 t0) * vdot (vsub t2 t0) (vsub t1 t0).
+Proof. pose proof gram_pos as G. unfold raw in G. rewrite <- gram_is_area in G. exact G. Qed.
+Ltac open := pose proof norm_pos as Hn; unfold raw, t0, t1, t2, o, d, p in *; open_with Hn.
+''')
+
+
+# ------------------------------------------------------------------ A: centres and normals
+A = [header('A (centres and normals)'), single_section()]
 for k in range(3):
-    A.append('Lemma t_center_%d_ok : t_center_%d %s = %s (centroid t0 t1 t2).\nProof. unfold t_center_%d. open. field. Qed.' % (k,k,ta,comp[k],k))
-    A.append('Lemma n_center_%d_ok : n_center_%d %s = %s (centroid t0 t1 t2).\nProof. unfold n_center_%d. open. field. Qed.' % (k,k,ta,comp[k],k))
+    A.append('Lemma t_center_%d_ok : t_center_%d %s = %s (centroid t0 t1 t2).\nProof. unfold t_center_%d. open. field. Qed.' % (k, k, ta, comp[k], k))
+    A.append('Lemma n_center_%d_ok : n_center_%d %s = %s (centroid t0 t1 t2).\nProof. unfold n_center_%d. open. field. Qed.' % (k, k, ta, comp[k], k))
     for api in 'tn':
-        A.append('Lemma %s_normal_%d_ok : %s_normal_%d %s = %s (tri_normal t0 t1 t2).\nProof. unfold %s_normal_%d. open. fin. Qed.' % (api,k,api,k,ta,comp[k],api,k))
+        A.append('Lemma %s_normal_%d_ok : %s_normal_%d %s = %s (tri_normal t0 t1 t2).\nProof. unfold %s_normal_%d. open. fin. Qed.' % (api, k, api, k, ta, comp[k], api, k))
 A.append('End Single.')
-open('C10_TieA.v','w').write('\n'.join(A)+'\n')
-for api,part in (('t','B (PyTorch plane hit)'),('n','C (NumPy plane hit)')):
-    B=[PRE % part, 'Hypothesis notpar : vdot raw d <> 0.']
-    if api=='t':
-        B.append('Lemma t_dist_ok : t_dist %s %s = plane_dist (tri_normal t0 t1 t2) (centroid t0 t1 t2) o d.\nProof. unfold t_dist. open. fin. Qed.' % (ta,ra))
+open('C10_TieA.v', 'w').write('\n'.join(A) + '\n')
+
+# ------------------------------------------------------------------ B / C: plane hit, one ray
+for api, part, fname in (('t', 'B (PyTorch plane hit)', 'C10_TieB.v'), ('n', 'C (NumPy plane hit)', 'C10_TieC.v')):
+    B = [header(part), single_section(), 'Hypothesis notpar : vdot raw d <> 0.']
+    if api == 't':
+        B.append('Lemma t_dist_ok : t_dist %s %s = plane_dist (tri_normal t0 t1 t2) (centroid t0 t1 t2) o d.\nProof. unfold t_dist. open. fin. Qed.' % (ta, ra))
     else:
         B.append('(* NumPy reports |distance| (known finding C10-numpy-abs-distance): the tie states exactly that *)')
-        B.append('Lemma n_dist_ok : n_dist %s %s = Rabs (plane_dist (tri_normal t0 t1 t2) (centroid t0 t1 t2) o d).\nProof. unfold n_dist. open. f_equal. fin. Qed.' % (ta,ra))
+        B.append('Lemma n_dist_ok : n_dist %s %s = Rabs (plane_dist (tri_normal t0 t1 t2) (centroid t0 t1 t2) o d).\nProof. unfold n_dist. open. f_equal. fin. Qed.' % (ta, ra))
     for k in range(3):
-        B.append('Lemma %s_hit_%d_ok : %s_hit_%d %s %s = %s (hit_point (tri_normal t0 t1 t2) (centroid t0 t1 t2) o d).\nProof. unfold %s_hit_%d. open. fin. Qed.' % (api,k,api,k,ta,ra,comp[k],api,k))
-        B.append('Lemma %s_hitn_%d_ok : %s_hitn_%d %s %s = %s (tri_normal t0 t1 t2).\nProof. unfold %s_hitn_%d. open. fin. Qed.' % (api,k,api,k,ta,ra,comp[k],api,k))
+        B.append('Lemma %s_hit_%d_ok : %s_hit_%d %s %s = %s (hit_point (tri_normal t0 t1 t2) (centroid t0 t1 t2) o d).\nProof. unfold %s_hit_%d. open. fin. Qed.' % (api, k, api, k, ta, ra, comp[k], api, k))
+        B.append('Lemma %s_hitn_%d_ok : %s_hitn_%d %s %s = %s (tri_normal t0 t1 t2).\nProof. unfold %s_hitn_%d. open. fin. Qed.' % (api, k, api, k, ta, ra, comp[k], api, k))
     B.append('End Single.')
-    open('C10_Tie%s.v' % ('B' if api=='t' else 'C'),'w').write('\n'.join(B)+'\n')
-D=[PRE % 'D (barycentric test)']
-D.append('''Lemma gram_open : 0 < vdot (vsub t2 t0) (vsub t2 t0) * vdot (vsub t1 t0) (vsub t1 t0) - vdot (vsub t2 t0) (vsub t1 t0) * vdot (vsub t2 t0) (vsub t1 t0).
-Proof. pose proof gram_pos as G. unfold raw in G. rewrite <- gram_is_area in G. exact G. Qed.''')
-for w in 'uv':
-    D.append('Lemma t_%s_ok : t_%s %s %s = bary_%s t0 t1 t2 p.\nProof. pose proof gram_open as G. unfold t_%s. open. field. lra. Qed.' % (w,w,ta,pa,w,w))
+    open(fname, 'w').write('\n'.join(B) + '\n')
+
+# ------------------------------------------------------------------ D: barycentric flag at an arbitrary point
+D = [header('D (barycentric hit flag)'), single_section()]
 D.append('''Lemma t_flag_ok : t_flag %s %s = inside_flag t0 t1 t2 p.
 Proof.
-  change (t_flag %s %s) with ((Rleb 0 (t_u %s %s) && Rleb 0 (t_v %s %s)) && Rltb (t_u %s %s + t_v %s %s) 1).
-  rewrite t_u_ok, t_v_ok. reflexivity.
-Qed.''' % (ta,pa,ta,pa,ta,pa,ta,pa,ta,pa,ta,pa))
-D.append('(* the flag intersect_w_triangle computes is the flag of the traced hit point *)')
-D.append('Lemma t_hitflag_is_flag_of_hit : t_hitflag %s %s = t_flag %s (t_hit_0 %s %s) (t_hit_1 %s %s) (t_hit_2 %s %s).\nProof. reflexivity. Qed.' % (ta,ra,ta,ta,ra,ta,ra,ta,ra))
+  pose proof gram_open as G. unfold t_flag.
+  flag_tie t0 t1 t2 p ltac:(unfold t0, t1, t2, p in *; open_model; field; lra).
+Qed.''' % (ta, pa))
 D.append('End Single.')
-open('C10_TieD.v','w').write('\n'.join(D)+'\n')
-# batch = map of the single-pair formulas
-T2=['t_%d_%d_%d'%(a,i,j) for a in range(2) for i in range(3) for j in range(3)]
-R2=['r_%d_%d_%d'%(a,i,j) for a in range(2) for i in range(2) for j in range(3)]
-def tri(i): return ' '.join('t_%d_%d_%d'%(i,a,b) for a in range(3) for b in range(3))
-def ray(j): return ' '.join('r_%d_%d_%d'%(j,a,b) for a in range(2) for b in range(3))
-L=['''(* C10 tie, part E: batched intersection (2 triangles x 2 rays, traced) returns, entry by entry, exactly the
-   single-pair formulas applied to (triangle i, ray j). *)
-From Coq Require Import Reals Lra Bool.
-From OdakV Require Import Base.RealAux.
-From Run Require Import GenC10.
-Open Scope R_scope.
-Section Batch.
-Variables %s : R.
-Variables %s : R.''' % (' '.join(T2),' '.join(R2))]
-allv=' '.join(T2)+' '+' '.join(R2)
+P2 = ['p_%d_%d' % (a, b) for a in range(2) for b in range(3)]
+PB = ['p_%d_%d_%d' % (a, b, c) for a in range(2) for b in range(2) for c in range(3)]
+D.append('''
+Section TwoPoints.
+Variables ''' + ta + ''' : R.
+Variables ''' + ' '.join(P2) + ''' : R.
+Let t0 : V3 := (t_0_0, t_0_1, t_0_2).
+Let t1 : V3 := (t_1_0, t_1_1, t_1_2).
+Let t2 : V3 := (t_2_0, t_2_1, t_2_2).
+Hypothesis nondeg : tri_raw_normal t0 t1 t2 <> vzero.
+Lemma gram2 : 0 < vdot (vsub t2 t0) (vsub t2 t0) * vdot (vsub t1 t0) (vsub t1 t0) - vdot (vsub t2 t0) (vsub t1 t0) * vdot (vsub t2 t0) (vsub t1 t0).
+Proof. pose proof (vnorm2_pos _ nondeg) as G. rewrite <- gram_is_area in G. exact G. Qed.''')
+for j in range(2):
+    D.append('''Lemma tf2_flag_%d_ok : tf2_flag_%d %s %s = inside_flag t0 t1 t2 (p_%d_0, p_%d_1, p_%d_2).
+Proof.
+  pose proof gram2 as G. unfold tf2_flag_%d.
+  flag_tie t0 t1 t2 (p_%d_0, p_%d_1, p_%d_2) ltac:(unfold t0, t1, t2 in *; open_model; field; lra).
+Qed.''' % (j, j, ta, ' '.join(P2), j, j, j, j, j, j, j))
+D.append('End TwoPoints.')
+D.append('''
+Section BatchPoints.
+Variables ''' + ' '.join(T2) + ''' : R.
+Variables ''' + ' '.join(PB) + ''' : R.''')
+for i in range(2):
+    for c in range(3):
+        D.append('Let t%d_%d : V3 := (t_%d_%d_0, t_%d_%d_1, t_%d_%d_2).' % (i, c, i, c, i, c, i, c))
+    D.append('Hypothesis nondeg%d : tri_raw_normal t%d_0 t%d_1 t%d_2 <> vzero.' % (i, i, i, i))
+    D.append('Lemma gramb%d : 0 < vdot (vsub t%d_2 t%d_0) (vsub t%d_2 t%d_0) * vdot (vsub t%d_1 t%d_0) (vsub t%d_1 t%d_0) - vdot (vsub t%d_2 t%d_0) (vsub t%d_1 t%d_0) * vdot (vsub t%d_2 t%d_0) (vsub t%d_1 t%d_0).\nProof. pose proof (vnorm2_pos _ nondeg%d) as G. rewrite <- gram_is_area in G. exact G. Qed.' % ((i,) * 18))
 for i in range(2):
     for j in range(2):
-        L.append('Lemma tb_dist_%d_%d_ok : tb_dist_%d_%d %s = t_dist %s %s.\nProof. reflexivity. Qed.'%(i,j,i,j,allv,tri(i),ray(j)))
-        L.append('Lemma tb_flag_%d_%d_ok : tb_flag_%d_%d %s = t_hitflag %s %s.\nProof. reflexivity. Qed.'%(i,j,i,j,allv,tri(i),ray(j)))
+        D.append('''Lemma tbf_flag_%d_%d_ok : tbf_flag_%d_%d %s %s = inside_flag t%d_0 t%d_1 t%d_2 (p_%d_%d_0, p_%d_%d_1, p_%d_%d_2).
+Proof.
+  pose proof gramb%d as G. unfold tbf_flag_%d_%d.
+  flag_tie t%d_0 t%d_1 t%d_2 (p_%d_%d_0, p_%d_%d_1, p_%d_%d_2) ltac:(unfold t%d_0, t%d_1, t%d_2 in *; open_model; field; lra).
+Qed.''' % (i, j, i, j, ' '.join(T2), ' '.join(PB), i, i, i, i, j, i, j, i, j, i, i, j, i, i, i, i, j, i, j, i, j, i, i, i))
+D.append('End BatchPoints.')
+open('C10_TieD.v', 'w').write('\n'.join(D) + '\n')
+
+# ------------------------------------------------------------------ E / F: several rays against one triangle (both APIs) and batches
+def tri(i): return ' '.join('t_%d_%d_%d' % (i, a, b) for a in range(3) for b in range(3))
+def ray(j): return ' '.join('r_%d_%d_%d' % (j, a, b) for a in range(2) for b in range(3))
+
+
+def multi_section(two_triangles):
+    s = ['\nSection Multi.']
+    s.append('Variables %s : R.' % (' '.join(T2) if two_triangles else ta))
+    s.append('Variables %s : R.' % ' '.join(R2))
+    tris = range(2) if two_triangles else [None]
+    for i in tris:
+        pre = 't_%d' % i if two_triangles else 't'
+        sfx = '%d' % i if two_triangles else ''
+        for c in range(3):
+            s.append('Let t%s%d : V3 := (%s_%d_0, %s_%d_1, %s_%d_2).' % (sfx + ('_' if two_triangles else ''), c, pre, c, pre, c, pre, c))
+        nm = ('t%s_0 t%s_1 t%s_2' % (sfx, sfx, sfx)) if two_triangles else 't0 t1 t2'
+        s.append('Let raw%s := tri_raw_normal %s.' % (sfx, nm))
+        s.append('Hypothesis nondeg%s : raw%s <> vzero.' % (sfx, sfx))
+        s.append('Lemma norm_pos%s : 0 < vnorm raw%s.\nProof. apply vnorm_pos, vnorm2_pos, nondeg%s. Qed.' % (sfx, sfx, sfx))
+        s.append('Lemma gram_open%s : 0 < vdot (vsub %s %s) (vsub %s %s) * vdot (vsub %s %s) (vsub %s %s) - vdot (vsub %s %s) (vsub %s %s) * vdot (vsub %s %s) (vsub %s %s).\nProof. pose proof (vnorm2_pos _ nondeg%s) as G. unfold raw%s in G. rewrite <- gram_is_area in G. exact G. Qed.'
+                 % ((sfx,) + tuple(x for pair in [(2, 0), (2, 0), (1, 0), (1, 0), (2, 0), (1, 0), (2, 0), (1, 0)] for x in (nm.split()[pair[0]], nm.split()[pair[1]])) + (sfx, sfx)))
+    for j in range(2):
+        s.append('Let o%d : V3 := (r_%d_0_0, r_%d_0_1, r_%d_0_2).' % (j, j, j, j))
+        s.append('Let d%d : V3 := (r_%d_1_0, r_%d_1_1, r_%d_1_2).' % (j, j, j, j))
+    return '\n'.join(s) + '\n'
+
+
+def multi_lemmas(prefix, i, j, two_triangles, absdist=False, with_flag=True):
+    """lemmas for the entry (triangle i, ray j); prefix names e.g. tm_ / nm_ / tb_"""
+    sfx = '%d' % i if two_triangles else ''
+    nm = ('t%s_0 t%s_1 t%s_2' % (sfx, sfx, sfx)) if two_triangles else 't0 t1 t2'
+    allv = (' '.join(T2) if two_triangles else ta) + ' ' + ' '.join(R2)
+    idx = ('%d_%d' % (i, j)) if two_triangles else ('%d' % j)
+    unf = 'unfold raw%s, %s, o%d, d%d in *' % (sfx, ', '.join(nm.split()), j, j)
+    L = ['Hypothesis notpar_%s : vdot raw%s d%d <> 0.' % (idx, sfx, j)]
+    model_d = 'plane_dist (tri_normal %s) (centroid %s) o%d d%d' % (nm, nm, j, j)
+    model_h = 'hit_point (tri_normal %s) (centroid %s) o%d d%d' % (nm, nm, j, j)
+    opn = 'pose proof norm_pos%s as Hn; %s; open_with Hn' % (sfx, unf)
+    if absdist:
+        L.append('Lemma %sdist_%s_ok : %sdist_%s %s = Rabs (%s).\nProof. unfold %sdist_%s. %s. f_equal. fin. Qed.' % (prefix, idx, prefix, idx, allv, model_d, prefix, idx, opn))
+    else:
+        L.append('Lemma %sdist_%s_ok : %sdist_%s %s = %s.\nProof. unfold %sdist_%s. %s. fin. Qed.' % (prefix, idx, prefix, idx, allv, model_d, prefix, idx, opn))
+    for k in range(3):
+        L.append('Lemma %shit_%s_%d_ok : %shit_%s_%d %s = %s (%s).\nProof. unfold %shit_%s_%d. %s. fin. Qed.' % (prefix, idx, k, prefix, idx, k, allv, comp[k], model_h, prefix, idx, k, opn))
+        L.append('Lemma %shitn_%s_%d_ok : %shitn_%s_%d %s = %s (tri_normal %s).\nProof. unfold %shitn_%s_%d. %s. fin. Qed.' % (prefix, idx, k, prefix, idx, k, allv, comp[k], nm, prefix, idx, k, opn))
+    if with_flag:
+        # the flag of this entry is the flag FUNCTION (traced at symbolic points, tied to the model in part D) applied to the
+        # traced hit points: same function, so the same term shape
+        if two_triangles:
+            pts = ' '.join('(tb_hit_%d_%d_%d %s)' % (a, b, c, allv) for a in range(2) for b in range(2) for c in range(3))
+            L.append('Lemma %sflag_%s_is_function_of_hit : %sflag_%s %s = tbf_flag_%d_%d %s %s.\nProof. reflexivity. Qed.' % (prefix, idx, prefix, idx, allv, i, j, ' '.join(T2), pts))
+        else:
+            pts = ' '.join('(tm_hit_%d_%d %s)' % (b, c, allv) for b in range(2) for c in range(3))
+            L.append('Lemma %sflag_%s_is_function_of_hit : %sflag_%s %s = tf2_flag_%d %s %s.\nProof. reflexivity. Qed.' % (prefix, idx, prefix, idx, allv, j, ta, pts))
+    return L
+
+
+E = [header('E (PyTorch: several rays against one triangle)'), multi_section(False)]
+for j in range(2):
+    E += multi_lemmas('tm_', None, j, False)
+E.append('End Multi.')
+open('C10_TieE.v', 'w').write('\n'.join(E) + '\n')
+
+F = [header('F (NumPy: several rays against one triangle)'), multi_section(False)]
+for j in range(2):
+    F += multi_lemmas('nm_', None, j, False, absdist=True, with_flag=False)
+F.append('End Multi.')
+open('C10_TieF.v', 'w').write('\n'.join(F) + '\n')
+
+for i in range(2):
+    G = [header('G%d (PyTorch batch: triangle %d against both rays; every entry is the single-pair model of ITS triangle and ITS ray)' % (i, i)), multi_section(True)]
+    for j in range(2):
+        G += multi_lemmas('tb_', i, j, True)
+    G.append('End Multi.')
+    open('C10_TieG%d.v' % i, 'w').write('\n'.join(G) + '\n')
+
+# ------------------------------------------------------------------ PropsB: batched / multi-ray results are the single-pair results
+allv = ' '.join(T2) + ' ' + ' '.join(R2)
+PB_ = ['''(* C10, end to end on the traced code, batches: every entry of the batched intersection (2 triangles x 2 rays) and of the
+   single-triangle functions called with several rays equals what the single-pair functions return for that triangle and
+   that ray (all of them equal the reference model of their own pair). *)
+From Coq Require Import Reals Lra Bool.
+From OdakV Require Import Base.RealAux Base.Vec3 C10.Model C10.Lemmas.
+From Run Require Import GenC10 C10_TieB C10_TieC C10_TieD C10_TieE C10_TieF C10_TieG0 C10_TieG1.
+Open Scope R_scope.
+
+Section Batch.
+Variables %s : R.
+Variables %s : R.''' % (' '.join(T2), ' '.join(R2))]
+for i in range(2):
+    for c in range(3):
+        PB_.append('Let t%d_%d : V3 := (t_%d_%d_0, t_%d_%d_1, t_%d_%d_2).' % (i, c, i, c, i, c, i, c))
+    PB_.append('Hypothesis nondeg%d : tri_raw_normal t%d_0 t%d_1 t%d_2 <> vzero.' % (i, i, i, i))
+for j in range(2):
+    PB_.append('Let o%d : V3 := (r_%d_0_0, r_%d_0_1, r_%d_0_2).' % (j, j, j, j))
+    PB_.append('Let d%d : V3 := (r_%d_1_0, r_%d_1_1, r_%d_1_2).' % (j, j, j, j))
+for i in range(2):
+    for j in range(2):
+        PB_.append('Hypothesis notpar_%d_%d : vdot (tri_raw_normal t%d_0 t%d_1 t%d_2) d%d <> 0.' % (i, j, i, i, i, j))
+conj = []
+proof = []
+for i in range(2):
+    for j in range(2):
+        conj.append('tb_dist_%d_%d %s = t_dist %s %s' % (i, j, allv, tri(i), ray(j)))
+        proof.append('rewrite (tb_dist_%d_%d_ok %s nondeg%d notpar_%d_%d), (t_dist_ok %s %s nondeg%d notpar_%d_%d); reflexivity' % (i, j, allv, i, i, j, tri(i), ray(j), i, i, j))
         for k in range(3):
-            L.append('Lemma tb_hit_%d_%d_%d_ok : tb_hit_%d_%d_%d %s = t_hit_%d %s %s.\nProof. reflexivity. Qed.'%(i,j,k,i,j,k,allv,k,tri(i),ray(j)))
-            L.append('Lemma tb_hitn_%d_%d_%d_ok : tb_hitn_%d_%d_%d %s = t_hitn_%d %s %s.\nProof. reflexivity. Qed.'%(i,j,k,i,j,k,allv,k,tri(i),ray(j)))
-L.append('End Batch.')
-open('C10_TieE.v','w').write('\n'.join(L)+'\n')
+            conj.append('tb_hit_%d_%d_%d %s = t_hit_%d %s %s' % (i, j, k, allv, k, tri(i), ray(j)))
+            proof.append('rewrite (tb_hit_%d_%d_%d_ok %s nondeg%d notpar_%d_%d), (t_hit_%d_ok %s %s nondeg%d notpar_%d_%d); reflexivity' % (i, j, k, allv, i, i, j, k, tri(i), ray(j), i, i, j))
+PB_.append('Theorem traced_batch_equals_singles :\n  ' + ' /\\\n  '.join(conj) + '.')
+PB_.append('Proof.\n  repeat match goal with |- and _ _ => split end.\n  - ' + '.\n  - '.join(proof) + '.\nQed.')
+# flags: the batch flag is the single flag function at the batch hit point
+fl = []
+pf = []
+for i in range(2):
+    for j in range(2):
+        hit = '(tb_hit_%d_%d_0 %s) (tb_hit_%d_%d_1 %s) (tb_hit_%d_%d_2 %s)' % (i, j, allv, i, j, allv, i, j, allv)
+        fl.append('tb_flag_%d_%d %s = t_flag %s %s' % (i, j, allv, tri(i), hit))
+        pts = ' '.join('(tb_hit_%d_%d_%d %s)' % (a, b, c, allv) for a in range(2) for b in range(2) for c in range(3))
+        pf.append('rewrite (tb_flag_%d_%d_is_function_of_hit %s), (tbf_flag_%d_%d_ok %s %s nondeg%d), (t_flag_ok %s %s nondeg%d); reflexivity' % (i, j, allv, i, j, ' '.join(T2), pts, i, tri(i), hit, i))
+PB_.append('Theorem traced_batch_flags_equal_singles :\n  ' + ' /\\\n  '.join(fl) + '.')
+PB_.append('Proof.\n  repeat match goal with |- and _ _ => split end.\n  - ' + '.\n  - '.join(pf) + '.\nQed.')
+PB_.append('End Batch.')
+PB_.append('Print Assumptions traced_batch_equals_singles.\nPrint Assumptions traced_batch_flags_equal_singles.')
+open('C10_TiePropsB.v', 'w').write('\n'.join(PB_) + '\n')
